@@ -85,6 +85,8 @@ def instr_ast(mnem, ops):
         if i is not None:
             return ".LEAQx %s %s %s %s" % (li(d), r(b), r(i), r(o[1]))
         return ".LEAQ %s %s %s" % (li(d), r(b), r(o[1]))
+    if mnem == "ANDQ" and o[0].startswith("$"):
+        return ".ANDQi %d %s" % (int(o[0][1:], 0), r(o[1]))
     if mnem == "ADDQ" and o[0].startswith("$"):
         return ".ADDQi %d %s" % (int(o[0][1:], 0), r(o[1]))
     if mnem in ("ADDQ", "CMPQ") and len(o) == 2 and o[0] in REGS and o[1] in REGS:
@@ -103,7 +105,7 @@ def instr_ast(mnem, ops):
         if o[0].startswith("$"):
             return ".MOVQimm %s %s" % (li(int(o[0][1:], 0)), r(b))
         return ".MOVQst %s %s" % (r(o[0]), r(b))
-    if mnem in ("JEQ", "JZ", "JNZ", "JAE", "JMP", "JB") and len(o) == 1 and re.match(r"^\w+$", o[0]):
+    if mnem in ("JEQ", "JZ", "JNZ", "JAE", "JMP", "JB", "JBE") and len(o) == 1 and re.match(r"^\w+$", o[0]):
         return '.%s "%s"' % (mnem, o[0])
     if mnem == "RET":
         return ".RET"
@@ -187,6 +189,15 @@ def main():
             sys.exit(1)
         w.append("open _root_.Asm.Instr _root_.Asm.Reg _root_.Asm.XReg in")
         w.append("def sse_%s : _root_.Asm.Prog := %s" % (sym, lit))
+    # the SSE counting loops (labels sse … end)
+    for f, sym in [("internal/bytealg/count_go122_amd64.s", "countbody"), ("internal/bytealg/count_go122_amd64.s", "countbodyCase")]:
+        try:
+            lit = small_prog(os.path.join(repo, f), sym, ("sse", "sseloop", "sseloopentry", "end"))
+        except ValueError as e:
+            print("asmfacts: the SSE loop of %s uses an instruction outside the modelled subset: %s" % (sym, e))
+            sys.exit(1)
+        w.append("open _root_.Asm.Instr _root_.Asm.Reg _root_.Asm.XReg in")
+        w.append("def ssecnt_%s : _root_.Asm.Prog := %s" % (sym, lit))
     w.append("end Gen.Asm")
     text = "\n".join(w) + "\n"
     if not (os.path.exists(out) and open(out).read() == text):
